@@ -200,14 +200,49 @@ def do_validate(m):
         return exc_class(e)
 
 
-def do_parse(kind, octets):
+def do_parse(kind, octets, obj=None):
+    """obj: a message object that has parsed other datagrams before (parse_msg must not depend on that history)"""
     D = toolkit()
-    o = D.TxMsg() if kind == "tx" else D.RxMsg()
+    o = obj if obj is not None else (D.TxMsg() if kind == "tx" else D.RxMsg())
     try:
         o.parse_msg(bytearray(octets))
         return [0] + enc(from_real(o))
     except Exception as e:  # noqa
         return exc_class(e)
+
+
+def new_obj(kind):
+    D = toolkit()
+    return D.TxMsg() if kind == "tx" else D.RxMsg()
+
+
+def reuse_check(ctx, dgrams, fresh_obs, keyp):
+    """parse the same datagrams, in order, with ONE object per direction; every result must equal the fresh-object result
+    on the fields the header version carries (dgrams: [(kind, octets, ...)], fresh_obs: do_parse results)"""
+    objs = {}
+    n = 0
+    for j, t in enumerate(dgrams):
+        kind, d = t[0], t[1]
+        if kind not in objs:
+            objs[kind] = new_obj(kind)
+        o2 = do_parse(kind, d, obj=objs[kind])
+        o1 = fresh_obs[j]
+        if o1[0] != o2[0]:
+            ctx.oracle_fail("parse_msg outcome depends on what the object parsed before", dict(kind=kind, octets=d, previous=dgrams[j - 1][1] if j else None),
+                            key=keyp + ":outcome", expected=o1[:1], observed=o2[:1])
+        elif o1[0] == 0:
+            a, b = carried(from_real(objs[kind])), None
+            f = new_obj(kind)
+            f.parse_msg(bytearray(d))
+            b = carried(from_real(f))
+            if a != b:
+                diff = [k for k in b if a.get(k) != b[k]]
+                ctx.oracle_fail("parse_msg on an object that parsed another datagram before leaves stale fields: " + ",".join(diff),
+                                dict(kind=kind, octets=d, previous=dgrams[j - 1][1] if j else None), key=keyp + ":" + ",".join(diff),
+                                expected={k: (b[k] if k != "burst" else (None if b[k] is None else len(b[k]))) for k in diff},
+                                observed={k: (a[k] if k != "burst" else (None if a[k] is None else len(a[k]))) for k in diff})
+            n += 1
+    ctx.count("reused_object_parses_compared", n)
 
 
 def carried(m):
